@@ -199,8 +199,8 @@ type flt_callCase struct {
 
 type flt_convTables struct {
 	constStr, constInt, funcRef string
-	unop, binop, sel          [][2]string
-	call                      []flt_callCase
+	unop, binop, sel            [][2]string
+	call                        []flt_callCase
 }
 
 // filterExprLit decodes `ir.FilterExpr{Op: ir.X, Value: ..., Args: ...}`.
@@ -1071,6 +1071,12 @@ func flt_filterTables(repo string, _ []string) (string, error) {
 	pairs("gen_load_underlying", lt.underlying)
 	fmt.Fprintf(&sb, "(* the ops newBinaryExprFilter reads the rhs constant from *)\nDefinition gen_load_rhs_str_op : string := %s.\nDefinition gen_load_rhs_int_op : string := %s.\n\n", flt_coqStr(lt.rhsStrOp), flt_coqStr(lt.rhsIntOp))
 
+	ls, err := t.emitLoaderState(repo)
+	if err != nil {
+		return "", err
+	}
+	sb.WriteString(ls)
+
 	fmt.Fprintf(&sb, "Definition gen_tables : tables := {|\n  t_flags := map (fun x => (fst (fst x), snd x)) gen_filter_ops;\n  t_const_str := %s;\n  t_const_int := %s;\n  t_funcref := %s;\n"+
 		"  t_conv_unop := gen_conv_unop;\n  t_conv_binop := gen_conv_binop;\n  t_conv_sel := gen_conv_sel;\n  t_conv_call := gen_conv_call;\n"+
 		"  t_not_op := %s;\n  t_and_op := %s;\n  t_or_op := %s;\n  t_load_swap := gen_load_swap;\n  t_load_tok := gen_load_tok;\n  t_load_cmp := gen_load_cmp\n|}.\n\n",
@@ -1450,7 +1456,7 @@ func (t *fltTr) hasPointers(ff *ast.File) (string, error) {
 // ---- constructor summaries
 type fltCtor struct {
 	name, operand, cond, listCond string
-	hasList, simple                bool
+	hasList, simple               bool
 }
 
 var fltListRe = regexp.MustCompile(`^if list := asExprSlice\(params\.subNode\((\w+)\)\); list != nil \{ return exprListFilterApply\(src, list\.GetExprSlice\(\), func\(x ast\.Expr\) bool \{ (.*) \}\) \}$`)
